@@ -236,7 +236,6 @@ func anyUnaddressable(segs []string) bool {
 	return segs[len(segs)-1] == "..." // a trailing "..." is the append-elements marker, not a key
 }
 
-
 // resolve turns a request path into segments below the root map {"config": cfg}, resolving
 // /id/<id>/… through the tagged objects of cfg. ok=false: the oracle has no opinion.
 func resolve(path string, cfg any) (segs []string, ell bool, ok bool) {
